@@ -400,7 +400,7 @@ func (stub *stub) Start(ctx context.Context) (retErr error) {
 	clientOpts := []ttrpc.ClientOpts{
 		ttrpc.WithOnClose(func() {
 			close(lostC)
-			stub.connClosed()
+			stub.connClosed(rpcm)
 		}),
 	}
 	rpcc := ttrpc.NewClient(conn, append(clientOpts, stub.clientOpts...)...)
@@ -583,10 +583,13 @@ func (stub *stub) register(ctx context.Context) error {
 	return nil
 }
 
-// Handle a lost connection.
-func (stub *stub) connClosed() {
+// Handle a lost connection. Only the session the notification belongs to is torn
+// down: a late notification from an earlier session must not close a newer one.
+func (stub *stub) connClosed(rpcm multiplex.Mux) {
 	stub.Lock()
-	stub.close()
+	if stub.rpcm == nil || stub.rpcm == rpcm {
+		stub.close()
+	}
 	stub.Unlock()
 	if stub.onClose != nil {
 		stub.onClose()
